@@ -41,7 +41,7 @@ def gen_params(rng):
         samples = ["dadA", "momA", "kidA", "dadB", "momB", "kidB"]
         ped = [("dadA", "momA", "kidA"), ("dadB", "momB", "kidB")]
     elif mode == "trio_plus":
-        samples = ["dad", "mom", "kid", "loner"]
+        samples = ["dad", "mom", "kid", rng.choice(["loner", "aunt"])]  # the single sample's family sorts last / first
         ped = [("dad", "mom", "kid")]
     elif mode == "trio":
         samples, ped = ["dad", "mom", "kid"], [("dad", "mom", "kid")]
@@ -69,6 +69,7 @@ def gen_params(rng):
         "error_rate": rng.choice([0.0, 0.02, 0.05]),
         "het_prob": 0.75,
         "with_pl": True,
+        "names_per_chrom": rng.random() < 0.3,
     }
     opts = {
         "reference": False,
@@ -110,6 +111,12 @@ def run_one(rng, counters):
         if "recomb" in opts["reports"] and opts["ped"]:
             paths["recomb"] = ro["recombination_list_filename"] = os.path.join(tmp, "recomb.tsv")
         out = os.path.join(tmp, "out.vcf")
+        if rng.random() < 0.4:
+            # a repeated execution: the report files of an earlier run are still there and must be replaced, not extended
+            opts["stale_reports"] = True
+            for kind_, path_ in paths.items():
+                with open(path_, "w") as fh:
+                    fh.write("#stale header of an earlier run\nstale\tchr9\t1\tx\ty\tz\tw\tv\nstale chr9 1 2 0 0 0 0 3\n")
         if rng.random() < 0.2:
             ro["via_cli"] = opts["via_cli"] = True  # through whatshap's argument parser, validate() and main()
             counters["runs_via_command_line"] = counters.get("runs_via_command_line", 0) + 1
